@@ -262,11 +262,31 @@ package route
 //@ // membership in a list of host names
 //@ spec fun inList(hs []string, x string) bool opaque = exists k int :: 0 <= k && k < len(hs) && hs[k] == x
 //@
+//@ // the host part of s reversed rune by rune, the port kept (definition: what ReverseHostPort returns; it reads nothing
+//@ // but its argument). Idealisation stated as an axiom: applying it twice gives the original back (true for valid UTF-8).
+//@ spec fun revHP(s string) string
+//@   axiom forall s string :: revHP(revHP(s)) == s
+//@
+//@ func ReverseHostPort
+//@   props C03
+//@   assigns nothing
+//@   ensures [assumed] result == revHP(s)
+//@
+//@ // candidate host patterns are tried most specific first: in descending order of their REVERSED spelling
+//@ // (a.b.com before *.b.com before *.com: DNS names carry their most specific label first)
 //@ func sortHostsReverseHostPort
-//@   trusted
+//@   props C03
 //@   assigns hosts[*]
+//@   ensures nopanic
 //@   ensures result == hosts
-//@   ensures forall x string :: inList(result, x) == old(inList(hosts, x))
+//@   // the same patterns come back (not proved: permutation through two rewriting loops and the library sort)
+//@   ensures [assumed] forall x string :: inList(result, x) == old(inList(hosts, x))
+//@   ensures forall i int, j int :: 0 <= i && i < j && j < len(result) ==> !strLess(revHP(result[i]), revHP(result[j]))
+//@   loop 1 invariant forall k int :: 0 <= k && k <= rangeindex ==> hosts[k] == revHP(old(hosts[k]))
+//@   loop 1 invariant forall k int :: rangeindex < k && k < len(hosts) ==> hosts[k] == old(hosts[k])
+//@   loop 2 invariant forall i int, j int :: 0 <= i && i < j && j <= rangeindex ==> !strLess(revHP(hosts[i]), revHP(hosts[j]))
+//@   loop 2 invariant forall i int, j int :: rangeindex < i && i < j && j < len(hosts) ==> !strLess(hosts[i], hosts[j])
+//@   loop 2 invariant forall i int, j int :: 0 <= i && i <= rangeindex && rangeindex < j && j < len(hosts) ==> !strLess(revHP(hosts[i]), hosts[j])
 //@
 //@ func (Table).matchingHostNoGlob
 //@   props C03
